@@ -170,7 +170,9 @@ def P_bytes_bound (tr : Trace) : Prop :=
 def P_stat_readable (tr : Trace) : Prop :=
   ∀ (j : Nat) obs, tr[j]? = some (Rec.stat, obs) → ∃ n m r, obs = Obs.stat n m r
 
-/-- "all operations are safe under concurrent use": after a concurrent run the byte count equals the retained data. -/
+/-- "all operations are safe under concurrent use": the harness's verdict on a concurrent run — the byte count
+equals the retained data afterwards, and every `After` of a goroutine on the stream only it appends to was
+the purge error or exactly what it had appended after the index. -/
 def P_concurrent_consistent (tr : Trace) : Prop :=
   ∀ (j : Nat) obs, tr[j]? = some (Rec.concurrent, obs) → obs = Obs.consistent
 
